@@ -492,7 +492,7 @@ def run_shard(spec, emit):
     checker = Checker()
     n_docs = 25 if tier == "quick" else 300
     orders = list(itertools.permutations(["iterate", "subscript", "by_id", "by_ref"]))
-    deadline = time.monotonic() + (80 if tier == "quick" else 2400)
+    deadline = time.monotonic() + (80 if tier == "quick" else 300)
     samples = 0
     for d in range(n_docs):
         if time.monotonic() > deadline:
